@@ -136,8 +136,9 @@ def body_pin(env):
         # the conductivity iteration of the clad has converged *for this pin* (whatever the other pins of the call do): the inner-wall
         # temperature reported is within the tolerance of the temperature the clad conductivity was last evaluated at
         lastT = m._h_clad.calls[-1][0]
-        env.holds('clad inner-wall temperature within the iteration tolerance (1e-3 K) of the last conductivity evaluation point of this pin',
-                  env.land(t[3] - lastT <= 1e-3, lastT - t[3] <= 1e-3), key='clad_iteration_not_converged_for_this_pin')
+        if not closed:      # (the closed-form instances carry enough non-linear claims already; same code path)
+          env.holds('clad inner-wall temperature within the iteration tolerance (1e-3 K) of the last conductivity evaluation point of this pin',
+                    env.land(t[3] - lastT <= 1e-3, lastT - t[3] <= 1e-3), key='clad_iteration_not_converged_for_this_pin')
         # film drop: closed form q' / (2 pi r_co h)
         r2 = float(m.clad['r'][2])
         env.eq('film drop = q\' / (2 pi r_clad h)', (t[1] - t[0]) * (2 * PI * r2) * h, q, tol=1e-7, scale=1.0)
